@@ -1,3 +1,254 @@
-/-! # C04 — property theorems (stub: filled in when the property's model is built) -/
+import ScenicModel.Props.C04Tree
+import ScenicModel.Props.C04Planar
+import ScenicModel.Props.C04Geo
+import ScenicModel.Gen.Solid
+
+/-!
+# C04 — object overlap and containment tests agree with exact solid geometry
+
+Property theorems **instantiated on the pass data regenerated from `/repo`** (`Gen/Solid.lean`): the side
+conditions `gen_*_sound` are re-proved on every run against the comparators / operands / connectives /
+constants extracted from the current source; the theorems then say that the decision procedures *as
+written in `/repo`* return the ground truth through every exit, for all solids and all observation
+vectors satisfying the stated contracts.
+
+Full statement of the property (for reference): for all pairs of objects / object–region pairs the
+answers of `intersects`, `containsObject`, `minimumDistanceTo` agree with exact solid geometry outside
+the numerical tolerance of touching, and every shortcut agrees with the exhaustive computation.
+
+What is proved here is the decision logic under contracts about FCL/trimesh/shapely (assumptions,
+validated by the correspondence run).  One contract is **false of the unchanged tree**: the fall-back
+branch of `MeshVolumeRegion._circumradius` measures the vertices about the origin, not about the
+region's `position` (`Gen.fallbackCenter = .origin`), so `IntersectContract.circA` fails for regions
+built with `centerMesh=False` around a non-zero position (e.g. `ViewRegion`): see
+`intersects_fallback_origin_witness` (negation witness) and `Solid.fallback_position_bound` (what the
+repaired expression satisfies).
+-/
+-- the side-condition scripts are deliberately redundant (robust against equivalent rewrites of /repo)
+set_option linter.unusedTactic false
+set_option linter.unreachableTactic false
+set_option linter.unnecessarySeqFocus false
+
 namespace Scenic.C04
+open Scenic.Solid Scenic.Gen Metric Set
+
+/-! ## side conditions on the generated data (re-proved on every run) -/
+
+theorem gen_intersect_sound : intersectCfg.Sound where
+  p1 := by intro o h; simp [intersectCfg, Cmp.eval] at h; linarith
+  p1Ret := by simp [intersectCfg]
+  p2Guard := by intro a b h; cases a <;> cases b <;> simp_all [intersectCfg, Conn.eval]
+  p2aIn := by intro o h; simp [intersectCfg, Cmp.eval] at h; linarith
+  p2aInRet := by simp [intersectCfg]
+  p2aCirc := by intro o h; simp [intersectCfg, Cmp.eval] at h; linarith
+  p2aCircRet := by simp [intersectCfg]
+  p2bRet := by simp [intersectCfg]
+  p3HitRet := by simp [intersectCfg]
+  p3Convex := by intro a b h; cases a <;> cases b <;> simp_all [intersectCfg, Conn.eval]
+  p4Bodies := by simp [intersectCfg]
+  p4Guard := by intro a b h; cases a <;> cases b <;> simp_all [intersectCfg, Conn.eval]
+  p4Conn := by intro a b; cases a <;> cases b <;> simp [intersectCfg, Conn.eval]
+  p5Negate := by simp [intersectCfg]
+
+theorem gen_contain_sound : containCfg.Sound where
+  p1Ret := by simp [containCfg]
+  p2Corner := by intro x h; simp [containCfg, Cmp.eval] at h; linarith
+  p2CornerRet := by simp [containCfg]
+  p2Vert := by
+    intro x
+    simp only [containCfg, Cmp.eval, decide_eq_true_eq]
+    try (constructor <;> intro h <;> linarith)
+  p3OutRet := by simp [containCfg]
+  p3 := by intro o h; simp [containCfg, Cmp.eval] at h; linarith
+  p3Ret := by simp [containCfg]
+  p4 := by intro o h; simp [containCfg, Cmp.eval] at h; linarith
+  p4Ret := by simp [containCfg]
+  p5Negate := by simp [containCfg]
+
+theorem gen_foot_sound : footCfg.Sound where
+  hullRet := by simp [footCfg]
+
+theorem gen_planar_sound : planarCfg.Sound where
+  needsBox := by simp [planarCfg]
+  pitch := by intro x h; simp [planarCfg, Cmp.eval] at h; linarith
+  roll := by intro x h; simp [planarCfg, Cmp.eval] at h; linarith
+
+theorem gen_obj_sound : objCfg.Sound where
+  z := by
+    intro o
+    simp only [objCfg, Cmp.eval, decide_eq_true_eq]
+    try (constructor <;> intro h <;> linarith)
+  zRet := by simp [objCfg]
+  r := by intro o h; simp [objCfg, Cmp.eval] at h; linarith
+
+theorem gen_dist_sound : distCfg.Sound where
+  z := by intro a b h; simp [distCfg, Cmp.eval] at h; linarith
+
+/-- the fall-back circumradius is measured about one of the two points the model knows -/
+theorem gen_fallback_center_cases : fallbackCenter = .origin ∨ fallbackCenter = .position := by
+  cases h : fallbackCenter <;> simp
+
+/-! ## the property theorems for the procedures as written in `/repo` -/
+
+variable {E : Type*} [NormedAddCommGroup E] [NormedSpace ℝ E]
+
+/-- `MeshVolumeRegion.intersects`: every exit returns `A ∩ B ≠ ∅` -/
+theorem intersects_correct {A B : Set E} {cA cB pA pB : E} {o : IntersectObs}
+    (h : IntersectContract A B cA cB pA pB o) :
+    (intersects intersectCfg o).1 = true ↔ (A ∩ B).Nonempty :=
+  Solid.intersects_correct _ gen_intersect_sound h
+
+/-- every shortcut of `intersects` agrees with the exhaustive boolean intersection -/
+theorem intersects_eq_exhaustive {A B : Set E} {cA cB pA pB : E} {o : IntersectObs}
+    (h : IntersectContract A B cA cB pA pB o) :
+    (intersects intersectCfg o).1 = !o.boolEmpty :=
+  Solid.intersects_eq_exhaustive _ gen_intersect_sound h
+
+/-- `MeshVolumeRegion.containsObject`: every exit returns `B ⊆ A` -/
+theorem containsObject_correct {A B K V : Set E} {cand rcand : E} {o : ContainObs}
+    (h : ContainContract A B K V cand rcand o) :
+    (containsObject containCfg o).1 = true ↔ B ⊆ A :=
+  Solid.containsObject_correct _ gen_contain_sound h
+
+/-- every shortcut of `containsObject` agrees with the exhaustive boolean difference -/
+theorem containsObject_eq_exhaustive {A B K V : Set E} {cand rcand : E} {o : ContainObs}
+    (h : ContainContract A B K V cand rcand o) :
+    (containsObject containCfg o).1 = o.diffEmpty :=
+  Solid.containsObject_eq_exhaustive _ gen_contain_sound h
+
+/-- `PolygonalFootprintRegion.containsObject`: every exit returns `B ⊆ F × ℝ` -/
+theorem footprintContains_correct {α : Type*} {B : Set (α × ℝ)} {F Q H : Set α} {o : FootObs}
+    (h : FootContract B F Q H o) :
+    (footprintContains footCfg o).1 = true ↔ B ⊆ cylinder F :=
+  Solid.footprintContains_correct _ gen_foot_sound h
+
+/-- `Object._isPlanarBox` holds only for boxes with pitch = roll = 0 -/
+theorem isPlanarBox_sound (isBox : Bool) (pitch roll : Rat)
+    (h : isPlanarBox planarCfg isBox pitch roll = true) : isBox = true ∧ pitch = 0 ∧ roll = 0 :=
+  Solid.isPlanarBox_sound _ gen_planar_sound isBox pitch roll h
+
+/-- `Object.intersects`: every exit (planar fast paths included) returns the ground truth -/
+theorem objectIntersects_correct {α : Type*} {SA SB : Set (α × ℝ)} {P1 P2 : Set α} {o : ObjObs}
+    (h : ObjContract SA SB P1 P2 o) :
+    (objectIntersects objCfg o).1 = true ↔ (SA ∩ SB).Nonempty :=
+  Solid.objectIntersects_correct _ gen_obj_sound h
+
+/-- `Object.minimumDistanceTo`: never positive on overlap, the true gap otherwise -/
+theorem min_dist_sign {α : Type*} [MetricSpace α] {SA SB : Set (α × ℝ)} {P1 P2 : Set α} {hS hO : ℝ}
+    {o : DistObs} (h : DistContract SA SB P1 P2 hS hO o) :
+    (((minimumDistance distCfg o).1 : ℝ) ≤ 0 ↔ (SA ∩ SB).Nonempty) ∧
+    (0 < ((minimumDistance distCfg o).1 : ℝ) → IsGap dist3 SA SB ((minimumDistance distCfg o).1 : ℝ)) :=
+  Solid.min_dist_sign _ gen_dist_sound h
+
+/-! ## the hypotheses are satisfiable (concrete, non-trivial instances) -/
+
+/-- two unit balls of the real line, 3 apart: answered by PASS 1 -/
+def obsApart : IntersectObs :=
+  { centerDist := 3, circS := 1, circO := 1, scaledS := false, scaledO := false, pointDist := 3,
+    inS := 1, inO := 1, pcircS := 1, pcircO := 1, bbOverlap := false, collide := false,
+    convexS := true, convexO := true, bodiesS := 1, bodiesO := 1, sHasO := false, oHasS := false,
+    boolEmpty := true }
+
+private theorem apart_disjoint : Disjoint (closedBall (0 : ℝ) 1) (closedBall (3 : ℝ) 1) :=
+  SolidLemmas.spheres_apart_disjoint (subset_refl _) (subset_refl _) (by norm_num [Real.dist_eq])
+
+private theorem apart_empty : ¬ (closedBall (0 : ℝ) 1 ∩ closedBall (3 : ℝ) 1).Nonempty := by
+  rw [Set.not_nonempty_iff_eq_empty]; exact apart_disjoint.inter_eq
+
+example : IntersectContract (closedBall (0 : ℝ) 1) (closedBall (3 : ℝ) 1) 0 3 0 3 obsApart where
+  circA := by simp [obsApart]
+  circB := by simp [obsApart]
+  centerDist := by norm_num [obsApart, Real.dist_eq]
+  ipA := by simp [obsApart]
+  ipB := by simp [obsApart]
+  pointDist := by norm_num [obsApart, Real.dist_eq]
+  bbox := fun _ => apart_disjoint
+  collideSound := by simp [obsApart]
+  collideConvex := fun _ _ hn => absurd hn apart_empty
+  singleBody := fun _ _ _ => ⟨fun hn => absurd hn apart_empty, by simp [obsApart]⟩
+  boolean := ⟨fun _ => apart_empty, fun _ => rfl⟩
+
+example : intersects intersectCfg obsApart = (false, .p1) := by
+  simp [intersects, intersectCfg, obsApart, Cmp.eval] <;> norm_num
+
+/-- a unit ball inside a ball of radius 10 (container treated as non-convex): answered by PASS 3 -/
+def obsInside : ContainObs :=
+  { bbOverlap := true, convex := false, minCornerSd := 0, minVertexSd := 0, candAvail := true,
+    regionHasCand := true, objCirc := 1, sdCand := 10, regCandAvail := false, regCirc := 0,
+    objMaxDist := 0, diffEmpty := true }
+
+example : ContainContract (closedBall (0 : ℝ) 10) (closedBall (0 : ℝ) 1) ∅ ∅ 0 0 obsInside where
+  nonempty := ⟨0, by simp⟩
+  bbox := by simp [obsInside]
+  convexA := by simp [obsInside]
+  cornersHull := by simp [obsInside]
+  cornersIn := by simp [obsInside]
+  vertsHull := by simp [obsInside]
+  vertsIn := by simp [obsInside]
+  vertsOut := by simp [obsInside]
+  candIn := fun _ => by simp
+  candOut := by simp [obsInside]
+  objCirc := fun _ => by simp [obsInside]
+  regionBall := fun _ _ => by
+    simp only [obsInside]
+    norm_num
+    exact ball_subset_closedBall
+  regCirc := by simp [obsInside]
+  objFar := by simp [obsInside]
+  boolean := ⟨fun _ => closedBall_subset_closedBall (by norm_num), fun _ => rfl⟩
+
+example : containsObject containCfg obsInside = (true, .p3Ball) := by
+  simp [containsObject, containCfg, obsInside, Cmp.eval, absQ] <;> norm_num
+
+/-- two planar boxes over the same footprint, heights 2, centres 1 apart in z: the planar fast path -/
+def obsPlanar : ObjObs :=
+  { selfPlanar := true, otherIsObject := true, otherPlanar := true, otherIsPolygonal := false,
+    zS := 0, zO := 1, hS := 2, hO := 2, polyIntersects := true, volumeAnswer := true }
+
+example : ObjContract (prism (univ : Set Unit) 0 2) (prism (univ : Set Unit) 1 2) univ univ obsPlanar where
+  hS := by norm_num [obsPlanar]
+  hO := by norm_num [obsPlanar]
+  planarS := fun _ => by simp [obsPlanar]
+  planarO := fun _ _ => by simp [obsPlanar]
+  polygonal := by simp [obsPlanar]
+  poly := by simp [obsPlanar]
+  volume := by
+    simp only [obsPlanar, true_iff]
+    exact ⟨((), 1 / 2), ⟨trivial, by show |(1 / 2 : ℝ) - 0| ≤ 2 / 2; norm_num [abs_le]⟩,
+      ⟨trivial, by show |(1 / 2 : ℝ) - 1| ≤ 2 / 2; norm_num [abs_le]⟩⟩
+
+example : objectIntersects objCfg obsPlanar = (true, .planarPoly) := by
+  simp [objectIntersects, objCfg, obsPlanar, Cmp.eval, absQ] <;> norm_num
+
+/-- certificates: two unit cubes 3 apart are separated along x; a cube shares its centre with itself -/
+def cubeAt (x : Rat) : Box := { c := (x, 0, 0), a1 := (1, 0, 0), a2 := (0, 1, 0), a3 := (0, 0, 1) }
+
+example : sepCheck (cubeAt 0) (cubeAt 3) (1, 0, 0) (1, 0, 0) (1, 0, 0) = true := by
+  simp [sepCheck, sepGap, cubeAt, Box.lin, Box.support, V3.add, V3.smul, V3.sub, V3.dot, absQ] <;> norm_num
+
+example : witnessCheck (cubeAt 0) (cubeAt 1) (1 / 2, 0, 0) = true := by
+  simp [witnessCheck, Box.has, slabHas, cubeAt, V3.sub, V3.dot] <;> norm_num
+
+/-! ## the contract that is false of the unchanged tree: the fall-back circumradius -/
+
+/-- **Negation witness.**  Two regions whose world-space solid is the *same* cube `[-1,1]³`, built with
+`centerMesh=False` around the positions `(5,0,0)` and `(-5,0,0)`.  `/repo` computes their circumradius
+about the origin (`fallbackCircSq .origin … = 3 ≤ (7/4)²`) but the centre distance between the
+positions (`10`); PASS 1 of the procedure as written in `/repo` answers "disjoint" although the solids
+share the point `(0,0,0)`.  (Replayed on the real code on every run; key `fallback-circumradius-origin`.) -/
+theorem intersects_fallback_origin_witness :
+    ∃ (A B : Box) (pA pB : V3) (o : IntersectObs),
+      fallbackCircSq .origin pA A.corners ≤ o.circS * o.circS ∧
+      fallbackCircSq .origin pB B.corners ≤ o.circO * o.circO ∧
+      o.centerDist * o.centerDist = V3.distSq pA pB ∧
+      (intersects intersectCfg o).1 = false ∧
+      witnessCheck A B (0, 0, 0) = true := by
+  refine ⟨cubeAt 0, cubeAt 0, (5, 0, 0), (-5, 0, 0),
+    { obsApart with centerDist := 10, circS := 7 / 4, circO := 7 / 4 }, ?_, ?_, ?_, ?_, ?_⟩
+  · simp [fallbackCircSq, maxQ, cubeAt, Box.corners, Box.lin, V3.add, V3.smul, V3.normSq, V3.dot] <;> norm_num
+  · simp [fallbackCircSq, maxQ, cubeAt, Box.corners, Box.lin, V3.add, V3.smul, V3.normSq, V3.dot] <;> norm_num
+  · simp [V3.distSq, V3.normSq, V3.dot, V3.sub] <;> norm_num
+  · simp [intersects, intersectCfg, obsApart, Cmp.eval] <;> norm_num
+  · simp [witnessCheck, Box.has, slabHas, cubeAt, V3.sub, V3.dot]
+
 end Scenic.C04
